@@ -22,7 +22,7 @@ LEVEL_TEXT = ("Tens of thousands of generated, validated requests (type-directed
 LEVEL_NOTE = ("trusted: R3 (vf/ref/executor.py), the library's parser/validator/schema construction (their correctness is C01/C08-C12/C17/C20); "
               "resolvers treat arguments as read-only; custom scalars pass through")
 TECHNIQUE = "runtime monitoring: differential oracle (specification executor) over generated requests and request histories, plus memo-hit invariant wrapper"
-RULE = ("requests = (schema, generated document that validate() accepts, operation name, variables provided/omitted/null/defaulted, data function "
+RULE = ("schema = the rich fixed schema (2/3 of the cases) or one of 4000 generated valid schemas (G-schema, 1/3); requests = (schema, generated document that validate() accepts, operation name, variables provided/omitted/null/defaulted, data function "
         "with fault rate in {0, .05, .15}: null at non-null, raised / returned exception, wrong __typename, non-list, ill-typed leaf); each is run "
         "1..5 times interleaved with other requests on the same schema and document objects. Non-trivial: the request made >= 3 resolver calls; "
         "distinct = distinct (document text, variables, fault seed).")
@@ -79,6 +79,27 @@ def canon(v):
     return (type(v).__name__, v)
 
 
+_gen_schemas = {}
+
+
+def generated_schema(k):
+    """A valid schema from G-schema (cached per worker), or None if it has no usable query root."""
+    if k not in _gen_schemas:
+        from graphql import build_schema
+        from ..gen.schema import SchemaGen, render_sdl
+        m = SchemaGen(random.Random(9_000_000 + k), adversarial=0.0).model()
+        try:
+            sch = build_schema(render_sdl(m))
+            from graphql import is_abstract_type
+            # G-data has no conforming value for an abstract type without possible types
+            if any(is_abstract_type(t) and not sch.get_possible_types(t) for t in sch.type_map.values()):
+                sch = None
+            _gen_schemas[k] = sch
+        except Exception:  # noqa: BLE001
+            _gen_schemas[k] = None
+    return _gen_schemas[k]
+
+
 def make_case(seed, schema=None):
     schema = schema or rich()
     rng = random.Random(seed)
@@ -126,7 +147,7 @@ def compare(ctx, schema, doc, case, res, calls, vf, op_name=None):
 
 
 def check_case(ctx, case, history_rng=None, others=()):
-    schema = rich()
+    schema = rich() if case.get("schema") is None else generated_schema(case["schema"])
     try:
         doc = parse(case["source"])
     except GraphQLError:
@@ -150,6 +171,8 @@ def check_case(ctx, case, history_rng=None, others=()):
                 if history_rng.random() < 0.5:
                     try:
                         odoc = other["doc"]
+                        if other.get("schema") != case.get("schema"):
+                            continue
                         run_request(schema, odoc, other)
                     except Exception:  # noqa: BLE001
                         pass
@@ -173,7 +196,16 @@ def run_shard(ctx):
     recent = collections.deque(maxlen=3)
     hr = ctx.rng
     for k in range(n):
-        case = make_case(base + k)
+        if k % 3 == 2:
+            sk = (base + k) % 4000
+            gs = generated_schema(sk)
+            if gs is None:
+                continue
+            case = make_case(base + k, gs)
+            case["schema"] = sk
+            ctx.count("requests_on_generated_schemas")
+        else:
+            case = make_case(base + k)
         ctx.case()
         doc = check_case(ctx, case, hr if k % 3 == 0 else None, list(recent))
         if doc is not None:
